@@ -74,6 +74,11 @@ def hand_shapes(D=2):
     # same variable loaded in several rows, fan-out 3
     out.append([[VARIABLE, 0, 0], [VARIABLE, 0, 0], [VARIABLE, 0, 0], [MUL, 0, 1], [MUL, 3, 2], [ADD, 4, 0], [SIN, 5, 5], [ADD, 6, 3]])
     out.append([[VARIABLE, 0, 0], [CONSTANT, -1, -1], [CONSTANT, -1, -1], [MUL, 0, 1], [ADD, 3, 2], [MUL, 4, 4], [SUB, 5, 3]])
+    # an addition below the root whose operands are shared with other consumers (adjoint arrays must not be aliased)
+    out.append([[VARIABLE, 0, 0], [VARIABLE, D - 1, D - 1], [SIN, 0, 0], [ADD, 0, 1], [MUL, 2, 3]])                 # sin(a)*(a+b)
+    out.append([[VARIABLE, 0, 0], [VARIABLE, D - 1, D - 1], [ADD, 0, 1], [EXP, 1, 1], [MUL, 2, 3], [MUL, 4, 0]])     # (a+b)*exp(b)*a
+    out.append([[CONSTANT, -1, -1], [CONSTANT, -1, -1], [VARIABLE, 0, 0], [ADD, 0, 1], [SIN, 0, 0], [MUL, 3, 2], [MUL, 5, 4], [ADD, 6, 1]])
+    out.append([[VARIABLE, 0, 0], [CONSTANT, -1, -1], [SUB, 0, 1], [ADD, 0, 1], [MUL, 2, 3], [COS, 1, 1], [MUL, 4, 5], [ADD, 6, 0]])
     return out
 
 
